@@ -12,9 +12,17 @@ def _pick_nl(w, rng, s, want_weights):
     if want_weights:
         c = [p for p in nlfiles(w, s, kinds=("vor",)) if w.files[p].get("weights") in w.files
              and w.files[w.files[p]["weights"]].get("of") == p and w.files[w.files[p]["weights"]]["src"] == w.files[p]["src"]]
-        if c:
-            p = rng.choice(c)
-            return p, w.files[p]["weights"]
+        pairs = [(p, w.files[p]["weights"]) for p in c]
+        # weights another tool wrote for a cutoff / N-nearest list (a stub peer): isolated
+        # particles - coordination number zero - occur there, never in a Voronoi list
+        for p in nlfiles(w, s, kinds=("cut", "nn"), need_cn=False):
+            for q in sorted(w.files):
+                f = w.files[q]
+                if f["kind"] == "weights" and f.get("of") == p and f.get("of_src") == w.files[p]["src"]:
+                    pairs.append((p, q))
+        pairs = [x for x in pairs if w.files[x[0]]["frames"] >= w.pool[s].tag["T"]] or pairs
+        if pairs:
+            return rng.choice(sorted(pairs))
     c = [p for p in nlfiles(w, s) if w.files[p]["frames"] >= w.pool[s].tag["T"]]
     return (rng.choice(c), None) if c else (None, None)
 
